@@ -78,6 +78,15 @@ pub async fn delete_saved_env_state(target: &TargetMetadata) -> Result<()> {
         {
             Ok(())
         }
+        // Whatever lies there is not a record: a directory goes like a corrupted file would.
+        Err(e) if e.kind() == std::io::ErrorKind::IsADirectory => {
+            fs::remove_dir_all(&checksums_file).await.with_context(|| {
+                format!(
+                    "Failed to delete directory {} lying in place of a checksums file",
+                    checksums_file.display()
+                )
+            })
+        }
         Err(e) => Err(e).with_context(|| {
             format!(
                 "Failed to delete checksums file {}",
